@@ -116,8 +116,14 @@ struct Env {
     ncoll: u64,
 }
 impl Env {
-    fn new(ncoll: u64) -> Env {
-        Env { eng: VectorEngine::new(), ncoll }
+    /// maxd = VectorEngineConfig::max_dimension (0 = None)
+    fn new(ncoll: u64, maxd: u64) -> Env {
+        let eng = if maxd == 0 {
+            VectorEngine::new()
+        } else {
+            VectorEngine::with_config(vector_engine::VectorEngineConfig { max_dimension: Some(maxd as usize), ..Default::default() }).unwrap()
+        };
+        Env { eng, ncoll }
     }
     fn res(r: Result<Vec<vector_engine::SearchResult>, VectorError>) -> Out {
         match r {
@@ -283,7 +289,10 @@ fn own_score(m: u64, q: &V, v: &V) -> Option<u32> {
 }
 
 fn run_trace(ncoll: u64, ops: &[Op]) -> (String, bool) {
-    let mut env = Env::new(ncoll);
+    run_trace_cfg(ncoll, 0, ops)
+}
+fn run_trace_cfg(ncoll: u64, maxd: u64, ops: &[Op]) -> (String, bool) {
+    let mut env = Env::new(ncoll, maxd);
     let mut cobs = vec![];
     let mut vectors: BTreeSet<V> = BTreeSet::new();
     let mut queries: BTreeSet<(u64, V)> = BTreeSet::new();
@@ -330,7 +339,7 @@ fn run_trace(ncoll: u64, ops: &[Op]) -> (String, bool) {
             }
         }
     }
-    let term = format!("({}, {}, {})", list(tbl), list(ops.iter().map(|o| o.coq())), list(cobs));
+    let term = format!("({maxd}, {}, {}, {})", list(tbl), list(ops.iter().map(|o| o.coq())), list(cobs));
     (term, cached_search)
 }
 
@@ -372,15 +381,29 @@ fn gen_dim(r: &mut Rng) -> usize {
     *r.pick(&[3usize, 3, 3, 3, 2, 4, 1])
 }
 
-fn gen_ops(r: &mut Rng, ncoll: u64, len: usize, dist: &mut Dist) -> Vec<Op> {
+/// returns (max_dimension to configure (0 = none), ops)
+fn gen_ops(r: &mut Rng, ncoll: u64, len: usize, dist: &mut Dist) -> (u64, Vec<Op>) {
     let nkeys = if r.chance(1, 4) { r.range(8, 14) } else { r.range(3, 7) };
     let main_dim = gen_dim(r);
+    // a third of the runs configure max_dimension = the run's main dimension: longer vectors (single
+    // stores, batch elements, queries) are then rejected by validation
+    let maxd: u64 = if r.chance(1, 3) { main_dim as u64 } else { 0 };
+    if maxd > 0 {
+        dist.hit("cfg.max_dimension");
+    }
     let mut pool: Vec<V> = vec![]; // stored vectors, for duplicates and exact-match queries
     let mut ops = vec![];
     let coll = |r: &mut Rng| if ncoll > 1 && r.chance(1, 3) { r.range(1, ncoll - 1) } else { 0 };
     while ops.len() < len {
         let k = r.below(100);
-        let dim = if r.chance(5, 6) { main_dim } else { gen_dim(r) };
+        let dim = if maxd > 0 && r.chance(1, 6) {
+            dist.hit("vec.over_max_dimension");
+            main_dim + 1 + r.below(2) as usize
+        } else if r.chance(5, 6) {
+            main_dim
+        } else {
+            gen_dim(r)
+        };
         let vecgen = |r: &mut Rng, dist: &mut Dist, pool: &mut Vec<V>| {
             if !pool.is_empty() && r.chance(1, 5) {
                 dist.hit("vec.duplicate");
@@ -406,8 +429,15 @@ fn gen_ops(r: &mut Rng, ncoll: u64, len: usize, dist: &mut Dist) -> Vec<Op> {
             ops.push(Op::Delete(coll(r), r.below(nkeys)));
             dist.hit("op.delete");
         } else if k < 48 {
-            let cnt = r.below(4);
-            let kvs = (0..cnt).map(|_| (r.below(nkeys), vecgen(r, dist, &mut pool))).collect();
+            let cnt = r.below(5);
+            let mut kvs: Vec<(u64, V)> = (0..cnt).map(|_| (r.below(nkeys), vecgen(r, dist, &mut pool))).collect();
+            if maxd > 0 && kvs.len() >= 2 && r.chance(1, 2) {
+                // a rejected element in the middle: valid elements before (and after) it
+                let at = r.range(1, kvs.len() as u64 - 1) as usize;
+                kvs[0].1 = gen_vec(r, main_dim, dist);
+                kvs[at].1 = gen_vec(r, main_dim + 1, dist);
+                dist.hit("op.batch_store.rejected_in_the_middle");
+            }
             ops.push(Op::BatchStore(kvs));
             dist.hit("op.batch_store");
         } else if k < 53 {
@@ -448,6 +478,57 @@ fn gen_ops(r: &mut Rng, ncoll: u64, len: usize, dist: &mut Dist) -> Vec<Op> {
             }
         }
     }
+    (maxd, ops)
+}
+
+/// Filtered search with a PARTLY filled oversample window: more than 3k vectors of the query's
+/// dimension, 1..k-1 matching ones inside the top 3k, at least k more matching ones below it.
+/// tag = key mod 2; vectors [1, 0.02 * rank] are ranked by similarity to [1, 0].
+fn gen_partial_window(r: &mut Rng, c: u64, dist: &mut Dist) -> Vec<Op> {
+    let k = r.range(2, 4);
+    let b = r.below(2); // the tag searched for
+    let inside = r.range(1, k - 1); // matches inside the window
+    let below = k + r.below(3); // matches below the window
+    let window = 3 * k;
+    let mut ops = vec![];
+    let mut next_match = b; // keys with key % 2 == b
+    let mut next_other = 1 - b;
+    let mut rank = 0u64;
+    // which window positions hold a match
+    let mut pos: Vec<u64> = (0..window).collect();
+    r.shuffle(&mut pos);
+    let match_pos: Vec<u64> = pos[..inside as usize].to_vec();
+    let mut stores = vec![];
+    for p in 0..window {
+        let key = if match_pos.contains(&p) {
+            let x = next_match;
+            next_match += 2;
+            x
+        } else {
+            let x = next_other;
+            next_other += 2;
+            x
+        };
+        stores.push(Op::StoreMeta(c, key, vec![b32(1.0), b32(0.02 * rank as f32)]));
+        rank += 1;
+    }
+    for _ in 0..below {
+        stores.push(Op::StoreMeta(c, next_match, vec![b32(1.0), b32(0.02 * rank as f32)]));
+        next_match += 2;
+        rank += 1;
+        if r.chance(1, 2) {
+            stores.push(Op::StoreMeta(c, next_other, vec![b32(1.0), b32(0.02 * rank as f32)]));
+            next_other += 2;
+            rank += 1;
+        }
+    }
+    r.shuffle(&mut stores);
+    ops.extend(stores);
+    let q = vec![b32(1.0), b32(0.0)];
+    for strat in [2u64, 0, 1] {
+        ops.push(Op::SearchFiltered(c, q.clone(), k, b, strat));
+    }
+    dist.hit("filtered.partial_window");
     ops
 }
 
@@ -522,16 +603,57 @@ fn main() {
             trace.push(&t, &format!("{label} ops={:?}", ops), true);
             dist.hit("corpus");
         }
+        // max_dimension = 3, cached index, a batch whose third element is too long: the elements before it
+        // are stored (one overwrites key 0), the call fails, the following searches must see the new data
+        let over = vec![b32(1.0), b32(1.0), b32(1.0), b32(1.0)];
+        let batch_partial = vec![
+            Op::Store(0, 0, a.clone()),
+            Op::Store(0, 1, bb.clone()),
+            Op::Build(0),
+            Op::BatchStore(vec![(0, bb.clone()), (2, z.clone()), (3, over.clone()), (4, a.clone())]),
+            Op::Search(0, q.clone(), 5),
+            Op::Search(0, q.clone(), 1),
+            Op::Get(0, 0),
+            Op::Build(0),
+            Op::BatchStore(vec![(5, a.clone()), (6, over.clone())]),
+            Op::Search(0, q.clone(), 10),
+            Op::Store(0, 7, over.clone()),
+            Op::StoreMeta(0, 7, over.clone()),
+            Op::Store(1, 7, over.clone()),
+            Op::Search(0, over.clone(), 2),
+            Op::Search(0, q.clone(), 10),
+        ];
+        let (t, _) = run_trace_cfg(2, 3, &batch_partial);
+        trace.push(&t, &format!("corpus max_dimension=3 batch with a rejected element in the middle ops={:?}", batch_partial), true);
+        dist.hit("corpus");
+        // partly filled oversample windows, default and named collection
+        let mut cr = Rng::new(0xC06);
+        for c in [1u64, 0, 1, 0] {
+            let ops = gen_partial_window(&mut cr, c, &mut dist);
+            let (t, _) = run_trace(2, &ops);
+            trace.push(&t, &format!("corpus filtered search, partly filled window, collection {c} ops={:?}", ops), true);
+            dist.hit("corpus");
+        }
     }
 
     let ntrace = args.budget(500, 8000);
     for _ in 0..ntrace {
         let ncoll = *rng.pick(&[1u64, 2, 2, 3]);
         let len = rng.range(4, 26) as usize;
-        let ops = gen_ops(&mut rng, ncoll, len, &mut dist);
-        let (t, cached) = run_trace(ncoll, &ops);
+        let (maxd, mut ops) = gen_ops(&mut rng, ncoll, len, &mut dist);
+        if rng.chance(1, 8) {
+            // a partly filled oversample window somewhere in the program (fresh collection keys may collide
+            // with earlier ones: that only changes which case it is)
+            let c = if ncoll > 1 && rng.chance(2, 3) { rng.range(1, ncoll - 1) } else { 0 };
+            let at = rng.below(ops.len() as u64 + 1) as usize;
+            let extra = gen_partial_window(&mut rng, c, &mut dist);
+            let tail = ops.split_off(at);
+            ops.extend(extra);
+            ops.extend(tail);
+        }
+        let (t, cached) = run_trace_cfg(ncoll, maxd, &ops);
         dist.hit(if cached { "trace.search_after_build" } else { "trace.exact_only" });
-        trace.push(&t, &format!("ncoll={ncoll} ops={:?}", ops), ops.iter().any(|o| matches!(o, Op::Search(..) | Op::SearchMetric(..) | Op::SearchFiltered(..))));
+        trace.push(&t, &format!("ncoll={ncoll} max_dimension={maxd} ops={:?}", ops), ops.iter().any(|o| matches!(o, Op::Search(..) | Op::SearchMetric(..) | Op::SearchFiltered(..))));
     }
 
     // ---- known finding reserved-default-name (implementation only): a named collection called
